@@ -1,9 +1,10 @@
 import Huginn.Drv.C07
+import Huginn.Drv.C10
 import Huginn.Drv.C14
 import Huginn.Drv.C20
 namespace Huginn.Drv
 
 def allHandlers : List (String × (String → P Verdict)) :=
-  Huginn.Drv.C07.handlers ++ Huginn.Drv.C14.handlers ++ Huginn.Drv.C20.handlers
+  Huginn.Drv.C07.handlers ++ Huginn.Drv.C10.handlers ++ Huginn.Drv.C14.handlers ++ Huginn.Drv.C20.handlers
 
 end Huginn.Drv
